@@ -130,11 +130,18 @@ fn report_reject(ev: &mut Ev, src: &Source, packaging: &str, t: &Tables, c: &Cer
 /// continuation line is certified with the locals it starts with as its entry locals) and every
 /// process's trace is replayed against the annotations and through the Lean `stepInstr`.
 fn system_tie(cx: &mut Ctx, ev: &mut Ev, src: &Source, lines: &[String]) {
+    system_tie_with(cx, ev, src, lines, &HashMap::new())
+}
+
+fn system_tie_with(cx: &mut Ctx, ev: &mut Ev, src: &Source, lines: &[String], modules: &HashMap<Vec<String>, String>) {
     // 1–3 workers, chosen from the source text (deterministic)
     let n_workers = 1 + (lines.iter().map(|l| l.len()).sum::<usize>() % 3);
     ev.hit(&format!("system-run:workers={n_workers}"));
-    let run = match run_session_traced_on(lines, &cx.b, 1500, n_workers) {
+    let run = match run_session_traced_with(lines, modules, &cx.b, 1500, n_workers) {
         Err(why) => {
+            if std::env::var("C07_DEBUG_REJECTED").is_ok() {
+                eprintln!("session {} skipped: {why}; lines: {lines:?}", src.origin);
+            }
             ev.hit(&format!("system-run:skipped:{}", why.split(':').next().unwrap_or("?")));
             return;
         }
@@ -142,6 +149,9 @@ fn system_tie(cx: &mut Ctx, ev: &mut Ev, src: &Source, lines: &[String]) {
     };
     ev.hit(&format!("system-run:{}", run.outcome.split(':').next().unwrap_or("?")));
     ev.hit(&format!("system-run:lines={}", run.lines_run));
+    if run.lines_rejected > 0 {
+        ev.hit(&format!("system-run:rejected-lines={}", run.lines_rejected));
+    }
     if run.unattributed > 0 {
         ev.add("system-run:unattributed-segments", run.unattributed as u64);
     }
@@ -156,6 +166,11 @@ fn system_tie(cx: &mut Ctx, ev: &mut Ev, src: &Source, lines: &[String]) {
                 if l != program.functions[f].captures {
                     if program.functions[f].instructions.iter().any(|i| matches!(i, Instruction::TailCall(true))) {
                         ev.hit("system-run:skipped:repl-line-with-self-tailcall");
+                        return;
+                    }
+                    // hypothesis of C07.checkAnn_sound_repl: nothing builds a closure of the line
+                    if program.functions.iter().any(|g| g.instructions.iter().any(|i| matches!(i, Instruction::Function(x) if *x == f))) {
+                        ev.hit("system-run:skipped:repl-line-function-referenced");
                         return;
                     }
                     program.functions[f].captures = l;
@@ -624,6 +639,34 @@ fn main() {
         ev.case(&src.text, true);
         ev.sample_sparse(i, 60, || json!({"origin": src.origin, "lines": lines}));
     }
+    // REPL sessions with in-memory modules and lines that fail to compile: whatever a failed line
+    // leaves behind (module cache, program tables) must not corrupt later lines
+    let n_msessions = opts.tier.pick(60u64, 1200u64);
+    for i in 0..n_msessions {
+        let mut r = Rng::for_case(opts.seed ^ 0x30D5, i);
+        let (modules, lines) = if i == 0 {
+            // fixed regression session (seeded/C07-3): a failed line that freshly imported `shapes`,
+            // then a same-shaped module at the same table positions, then `shapes` again
+            (
+                vec![
+                    ("shapes".to_string(), "scale = 10, [area: #'int { [~, scale] __integer_multiply__ }]".to_string()),
+                    ("squares".to_string(), "scale = 10, [area: #'int { [~, ~] __integer_multiply__ }]".to_string()),
+                ],
+                vec!["4 %shapes.area oops".to_string(), "a = 4 %squares.area, b = 4 %shapes.area, [a, b]".to_string(), "[a, b, 2 %shapes.area]".to_string()],
+            )
+        } else {
+            cgen::module_session(&mut r, &mut ev)
+        };
+        let mut map: HashMap<Vec<String>, String> = HashMap::new();
+        for (name, text) in &modules {
+            map.insert(vec![name.clone()], text.clone());
+        }
+        let src = Source { origin: format!("module-session#{i}"), text: format!("{}\n---\n{}", modules.iter().map(|(n, t)| format!("// module {n}\n{t}")).collect::<Vec<_>>().join("\n"), lines.join("\n")) };
+        system_tie_with(&mut cx, &mut ev, &src, &lines, &map);
+        ev.case(&src.text, true);
+        ev.sample_sparse(i, 30, || json!({"origin": src.origin, "modules": modules, "lines": lines}));
+    }
+    ev.set_extra("repl_module_sessions", json!(n_msessions));
     ev.set_extra("repl_sessions", json!(n_sessions));
     ev.set_extra("generated", json!(n_gen));
     ev.set_extra("generated_accepted", json!(gen_accepted));
